@@ -1,5 +1,5 @@
 """Shared specification vocabulary (DESIGN section 5): ghost state, spec functions, invariants."""
-from pyvc.spec import axiom, cl, fields, fn, ghost_fields, macro, specfn, trusted
+from pyvc.spec import axiom, cl, fields, fn, ghost_fields, macro, opaque, specfn, trusted
 
 # ---- problems ---------------------------------------------------------------------------------
 specfn("F", ["ref", "g"], "fl")            # objective value of FunctionProblem fp at a genome (deterministic, total)
@@ -11,7 +11,7 @@ specfn("in_chain", ["ref", "ref"], "bool") # in_chain(p, o): o is p or below p i
 specfn("in_box", ["g", "arr:B"], "bool")
 specfn("dur_owner", ["ref"], "ref")        # the StatsGatheringProblem that owns a durations list   # every coordinate of the genome within the box (row view)
 
-ghost_fields(**{"$ncalls": "int", "$refused": "bool"})
+ghost_fields(**{"$ncalls": "int", "$refused": "bool", "$kind": "int"})   # $kind of a list: see d10_tree_structure (9 = durations)
 
 macro("ncalls", ["p"], 'field(p, "$ncalls", "int")')
 macro("refused", ["w"], 'field(w, "$refused", "bool")')
@@ -29,7 +29,8 @@ macro("Wf1", ["o"], """
             and forall(lambda q: imp(in_chain(o, q), q == o), q="ref:Problem"))
     and imp(instance_of(o, "StatsGatheringProblem"),
             cast(o, "ref:StatsGatheringProblem")._durations != None
-            and dur_owner(cast(o, "ref:StatsGatheringProblem")._durations) == o)
+            and dur_owner(cast(o, "ref:StatsGatheringProblem")._durations) == o
+            and field(cast(o, "ref:StatsGatheringProblem")._durations, "$kind", "int") == 9)
     and imp(instance_of(o, "ProblemWrapper"),
             cast(o, "ref:ProblemWrapper")._inner != None
             and inner(o) == inner(cast(o, "ref:ProblemWrapper")._inner)
@@ -38,7 +39,7 @@ macro("Wf1", ["o"], """
             and forall(lambda q: imp(in_chain(o, q), q == o or in_chain(cast(o, "ref:ProblemWrapper")._inner, q)),
                        q="ref:Problem"))
 """)
-macro("WfProblem", ["p"], """
+opaque("WfProblem", ["p"], """
     Wf1(p) and forall(lambda o: imp(in_chain(p, o), Wf1(o)), o="ref:Problem")
 """)
 # in_chain / depth / inner are ghost functions *defined* as the reflexive-transitive closure of the
@@ -61,3 +62,6 @@ trusted("closed world for problems: every Problem is a FunctionProblem or a Prob
 trusted("FunctionProblem(use_cache=False): with the cache on, cached values are returned without invoking the "
         "objective, which the counting properties (C03) exclude")
 trusted("the user's objective is a deterministic total function F(problem, genome) that does not return NaN")
+
+trusted("WfProblem is an opaque, state-independent predicate: the fields it reads (_inner, _maximize, _bounds, _cache, "
+        "_durations) are written only by constructors (checked mechanically on every run)")
